@@ -22,6 +22,8 @@ Obs ==
                [i \in U |-> IF Represented(part, eqs, i) THEN mc[part[i]] ELSE 0]],
    \* leaf-operator analysis (join = union), per class label (empty for indices that are not labels)
    leaf  |-> LET lo == LeafOps(part) IN [i \in U |-> IF part[i] = i /\ Represented(part, eqs, i) THEN SetToSeq(lo[i]) ELSE << >>],
+   pleaf |-> LET lo == LeafOps(part) IN [ti \in DOMAIN TermPool |-> SetToSeq(lo[part[idx[TermPool[ti]]]])],
+   psize |-> LET mc == MinCost("astsize", part) IN [ti \in DOMAIN TermPool |-> mc[part[idx[TermPool[ti]]]]],
    \* expected e-matching results (EMatch.tla); empty pattern pool = not asked for
    mt    |-> MatchObs(part, eqs),
    nored |-> IF Patterns = << >> THEN TRUE ELSE NoRedundancy(part, eqs)]
